@@ -15,7 +15,7 @@ BUILTINS = {'len', 'range', 'ord', 'chr', 'int', 'str', 'bool', 'bytes', 'bytear
             'sorted', 'enumerate', 'list', 'tuple', 'dict', 'set', 'any', 'all', 'getattr', 'print', 'repr', 'abs',
             'sum', 'zip', 'hasattr', 'type', 'float', 'bin', 'hex', 'reversed', 'map', 'filter', 'open', 'id',
             'implies', 'iff', 'old', 'True', 'False', 'None', 'object', 'divmod', 'pow', 'round', 'callable',
-            'Exception', 'frozenset', 'iter', 'next', 'super', 'format', 'setattr', 'chr8', 'all_bytes', 'ghost', 'is_blank'}
+            'Exception', 'frozenset', 'iter', 'next', 'super', 'format', 'setattr', 'chr8', 'all_bytes', 'ghost', 'is_blank', 'latin', 'in_ascii'}
 
 MODULE_CONSTS = {
     'sys.maxsize': 2 ** 63 - 1,
